@@ -237,6 +237,35 @@ def ob_di_readout(h):
     h.check("pinches_are_those_of_the_shifted_table", And(h.eq(res["hot_pinch"], th), h.eq(res["cold_pinch"], tc)))
 
 
+def ob_factory(h):
+    """FACTORY: the process stream handed to the cascade is the constructor's stream for the request's OWN numbers -- temperatures, duty (with its
+    sign: an isothermal stream's direction is read from it), contribution and film coefficient, each given as a plain number, a {value, units}
+    dictionary or a ValueWithUnit.  Every attribute the cascade reads is compared with a stream built directly from the symbols."""
+    from types import SimpleNamespace
+    import OpenPinch.analysis.data_preparation as dp
+    from OpenPinch.lib.schema import ValueWithUnit
+    ts, tt, q, dt, htc = h.real("ts"), h.real("tt"), h.real("q"), h.real("dt", lo=0), h.real("htc")
+    h.assume(htc > 0)
+    shape = h.choice("shape", ["sloped", "isothermal"])
+    h.assume(ts != tt if shape == "sloped" else ts == tt)
+    form = h.choice("given_as", ["number", "dictionary", "value_with_unit"])
+
+    def wrap(v, unit):
+        if form == "number":
+            return v
+        if form == "dictionary":
+            return {"value": v, "units": unit}
+        return ValueWithUnit.model_construct(value=v, units=unit)      # the real pydantic model, built without validation (validation is C14's / pydantic's)
+    rec = SimpleNamespace(name="S", zone="Z", t_supply=wrap(ts, "degC"), t_target=wrap(tt, "degC"), heat_flow=wrap(q, "kW"), dt_cont=wrap(dt, "delta_degC"),
+                          htc=wrap(htc, "kW/m2.K"))
+    got = dp._create_process_stream(rec)
+    want = Stream("S", ts, tt, heat_flow=q, dt_cont=dt, htc=htc, is_process_stream=True)
+    h.check("stream_kind_is_the_constructors", got.type == want.type)
+    for a in ("t_supply", "t_target", "heat_flow", "dt_cont", "htc", "CP", "t_min", "t_max", "t_min_star", "t_max_star"):
+        h.check("stream_attribute_is_the_constructors_for_the_requests_own_numbers", h.eq(getattr(got, a), getattr(want, a)), note=a)
+    h.check("marked_as_process_stream", got.is_process_stream is True)
+
+
 def obligations():
     fs = [Stream.__init__, Stream._update_attributes, pta.get_process_heat_cascade, pta.create_problem_table_with_t_int,
           pta._sum_mcp_between_temperature_boundaries, pta.problem_table_algorithm, pta.get_heat_recovery_target_from_pt, pta.set_zonal_targets]
@@ -259,6 +288,10 @@ def obligations():
                     bound="1..2 streams, every temperature / duty / contribution symbolic (non-linear arithmetic)",
                     doc="as C01.slice.b with symbolic heat-capacity flow rates")
     obs += split(nl, streams=[1]) + split(nl, streams=[2], s0_dir=D, s1_dir=D)
+    import OpenPinch.analysis.data_preparation as dp
+    obs.append(Obligation("C01.factory", ob_factory, kind="proof", functions=[dp._create_process_stream, Stream.__init__, Stream._update_attributes],
+                          expect=("stream_kind_is_the_constructors",),
+                          doc="FACTORY: request record -> Stream keeps every number with its sign (path-complete, all reals)"))
     import OpenPinch.analysis.direct_integration_entry as di
     obs.append(Obligation("C01.di.readout", ob_di_readout, kind="proof", functions=[di.compute_direct_integration_targets, di._save_graph_data],
                           stubs=("get_process_heat_cascade (C01.slice / C05)", "pinch_temperatures (C06)", "get_additional_GCCs (C07)", "get_utility_targets (C03/C04)",
